@@ -193,10 +193,30 @@ def run_check(prop, tier, only=None, jobs=None, native=True, proof=True, verbose
         lines.append(f"NOTE {len(violations)} obligations refuted; the first 6 are reported as VIOLATION lines, all are listed in the evidence file")
     for v in violations[:6]:
         ob, r = v['ob'], v['harness']
-        p = write_replay(prop, ob['name'], dict(kind='obligation-refuted', obligation=ob['name'], line=ob.get('line'), backend=ob.get('backend'),
-                                                counter_model=ob.get('model'), path=ob.get('path'), harness_doc=r.get('doc'), targets=r['targets'],
-                                                native_replays=[replay_of[k] for k in replay_of]))
-        tail = '' if nat_fail else ' no-failing-input-found'
+        # replay of the verifier's counter-model on the real code, where the harness can turn the model into concrete inputs
+        code, replayed, rinfo = None, False, None
+        spec = runner.HARNESSES.get((prop, r['harness'])) or {}
+        if spec.get('replay') and ob.get('model'):
+            try:
+                code = spec['replay'](ob['name'], dict(ob['model']))
+            except Exception as e:
+                rinfo = {'error': f'replay builder failed: {e!r}'}
+        payload = dict(kind='obligation-refuted', obligation=ob['name'], line=ob.get('line'), backend=ob.get('backend'),
+                       counter_model=ob.get('model'), path=ob.get('path'), harness_doc=r.get('doc'), targets=r['targets'],
+                       native_replays=[replay_of[k] for k in replay_of])
+        p = write_replay(prop, ob['name'], payload, code=code)
+        if code:
+            env = dict(os.environ, PYTHONPATH=f'{REPO}:{HERE}', REPO_ROOT=REPO, MPLBACKEND='Agg', OMP_NUM_THREADS='1', OPENBLAS_NUM_THREADS='1')
+            try:
+                rr = subprocess.run([NATIVE_PY, p[:-5] + '.py'], env=env, capture_output=True, text=True, timeout=300)
+                replayed = rr.returncode != 0
+                rinfo = {'rc': rr.returncode, 'tail': (rr.stdout + rr.stderr)[-1200:]}
+            except subprocess.TimeoutExpired:
+                rinfo = {'error': 'native replay timed out'}
+        if rinfo is not None:
+            payload['counter_model_replayed_on_real_code'] = dict(rinfo, reproduces=replayed)
+            p = write_replay(prop, ob['name'], payload, code=code)
+        tail = '' if (nat_fail or replayed) else ' no-failing-input-found'
         lines.append(f"VIOLATION property={prop} replay={p}{tail}")
         rc = 1
     if len(undecided) > 8:
